@@ -189,3 +189,13 @@ add('ITER',
          "{ let mut __k: usize = 0; 'outer: while __k < $w.len() { let $s = $w.get_ref(__k); __k += 1; $body } }"),
     Rule('X-ITER', "for $s:i in $w:i.iter() $body:b",
          "{ let mut __k: usize = 0; while __k < $w.len() { let $s = $w.get_ref(__k); __k += 1; $body } }"))
+
+# X-HDLC (unit hdlc): iterator / slice idioms of hdlc_deframer.rs
+add('HDLC',
+    Rule('X-HDLC', '(0..$b:i.len()).step_by(8).map(|i| bits2byte(&$c:i[i..i + 8])).collect()', 'bits_to_bytes(&$b)'),
+    Rule('X-HDLC', 'u16::from_le_bytes($v:i[$at:e..].try_into()?)', 'le16_at(&$v, $at)?'),
+    Rule('X-HDLC', '&$v:i[..$e:e]', 'subslice(&$v, 0, $e)'),
+    Rule('X-HDLC', '&$v:i[..]', '$v.as_slice()'),
+    Rule('X-HDLC', '$d:i.to_vec()', 'slice_to_vec($d)'),
+    Rule('X-ITER', 'for $s:i in $w:i.iter().copied() $body:b',
+         '{ let mut __k: usize = 0; while __k < $w.len() { let $s = *$w.get_ref(__k); __k += 1; $body } }'))
